@@ -117,40 +117,233 @@ def impl_unit_of(qobj):
     return s, impl_parse(s)
 
 
-def build_tree(q, tree, leaves):
-    """build the formula with real quantities; tree = driver JSON; leaves collects leaf strings"""
-    tag = tree[0]
-    if tag == "leaf":
+# numeric argument types: the same number handed to the library as different Python objects
+NUM_TYPES = ["int", "float", "np.float64", "np.float32", "np.int64", "np.int32", "np.arange",
+             "Fraction"]
+
+
+def num_obj(k, typ=None):
+    """the rational k as a Python object of the named numeric type (None: int when integral,
+    else the binary64 quotient — what a user types as `2` or `1/2`)"""
+    k = F(k)
+    if typ in (None, "py"):
+        return k.numerator if k.denominator == 1 else k.numerator / k.denominator
+    if typ == "Fraction":
+        return F(k)
+    if typ == "int":
+        assert k.denominator == 1
+        return int(k)
+    if typ == "float":
+        return k.numerator / k.denominator
+    import numpy as np
+    if typ == "np.float64":
+        return np.float64(k.numerator / k.denominator)
+    if typ == "np.float32":
+        return np.float32(k.numerator / k.denominator)
+    assert k.denominator == 1
+    if typ == "np.int64":
+        return np.int64(int(k))
+    if typ == "np.int32":
+        return np.int32(int(k))
+    if typ == "np.arange":          # an element of an integer array (platform integer)
+        return np.arange(int(k) + 1)[int(k)] if k >= 0 else np.array([int(k)])[0]
+    raise ValueError(typ)
+
+
+def num_types_for(k):
+    """numeric types in which the rational k can be written exactly enough to mean k"""
+    k = F(k)
+    if k.denominator == 1:
+        return list(NUM_TYPES)
+    ts = ["float", "np.float64", "Fraction"]
+    if k.denominator & (k.denominator - 1) == 0:
+        ts.append("np.float32")     # dyadic: exact in binary32
+    return ts
+
+
+BAD_UNIT_OBJECTS = {"int": 5, "None": None, "list": ["m"], "bytes": b"m", "float": 1.0,
+                    "dict": {"m": 1}, "tuple": ("m", 1)}
+WRAPPERS = ("fault", "recalc")
+
+
+def unwrap(tree):
+    """the formula whose dimension the wrapped tree has: rejected requests change nothing; a
+    VALID unit assignment to an operand before recalculate() (["recalc", sub, [[i, "assign",
+    units_json, string], ..]]) replaces that operand's unit"""
+    while tree[0] in WRAPPERS:
+        if tree[0] == "recalc" and any(x[1] == "assign" for x in tree[2]):
+            sub = list(tree[1])
+            kids = [sub[1]] if sub[0] == "powc" else list(sub[2])
+            for x in tree[2]:
+                if x[1] == "assign" and x[0] < len(kids):
+                    kids[x[0]] = ["leaf", x[2], x[3]]
+            if sub[0] == "powc":
+                sub[1] = kids[0]
+            else:
+                sub[2] = kids
+            tree = sub
+        else:
+            tree = tree[1]
+    return tree
+
+
+def has_fault(tree):
+    """does the formula contain a request that must be rejected?"""
+    return any(t[0] == "fault" or (t[0] == "recalc" and any(x[1] != "assign" for x in t[2]))
+               for t in subtrees(tree))
+
+
+def has_recalc(tree):
+    return any(t[0] == "recalc" for t in subtrees(tree))
+
+
+class Builder:
+    """builds a formula with real quantities.  Wrappers: ["fault", sub, kind, arg] sends a request
+    that must be REJECTED to the object built for `sub` (or to the session) and catches the
+    exception; ["recalc", sub, [[child, kind, arg], ..]] sends such requests to operands of the
+    finished result `sub` and then calls `recalculate()` on it.  `faults` logs every request
+    with its outcome ('accepted' or the exception class)."""
+
+    def __init__(self, q):
+        self.q = q
+        self.leaves = []
+        self.faults = []
+        self.arrays = {}     # id(element) -> the MeasurementArray it belongs to
+        self.kids = {}       # id(result) -> operand objects
+        self.keep = []       # keeps every object alive (ids stay unique)
+
+    def leaf(self, tree):
+        q = self.q
         u = units_from_json(tree[1])
         s = tree[2] if len(tree) > 2 else unit_string(u)
-        leaves.append(s)
-        return q.Measurement(2.0 + 0.25 * (len(leaves) % 5), 0.1, unit=s)
-    if tag == "const":
-        return 2
-    if tag == "powc":
-        a = build_tree(q, tree[1], leaves)
-        k = F(tree[2], tree[3])
-        return a ** (k.numerator if k.denominator == 1 else k.numerator / k.denominator)
-    op, args = tree[1], [build_tree(q, t, leaves) for t in tree[2]]
-    if op == "neg":
-        return -args[0]
-    if op == "sqrt":
-        return q.sqrt(args[0])
-    if op == "add":
-        return args[0] + args[1]
-    if op == "sub":
-        return args[0] - args[1]
-    if op == "mul":
-        return args[0] * args[1]
-    if op == "div":
-        return args[0] / args[1]
-    if op == "sin":
-        return q.sin(args[0])
-    raise ValueError(op)
+        opt = tree[3] if len(tree) > 3 else {}
+        mode = opt.get("mode", "ctor")
+        self.leaves.append(s)
+        n = len(self.leaves) % 5
+        v = num_obj(F(8 + n, 4) if opt.get("vt") in (None, "float", "np.float64", "np.float32",
+                                                     "Fraction") else F(2 + n), opt.get("vt"))
+        e = num_obj(F(1, 8) if opt.get("et") in (None, "float", "np.float64", "np.float32",
+                                                 "Fraction") else F(1), opt.get("et"))
+        other = opt.get("other", "Q^2/x")
+        if mode == "ctor":
+            m = q.Measurement(v, e, unit=s)
+        elif mode == "assign":
+            m = q.Measurement(v, e)
+            m.unit = s
+        elif mode == "reassign":
+            m = q.Measurement(v, e, unit=other)
+            m.unit = s
+        elif mode == "clear-assign":
+            m = q.Measurement(v, e, unit=s)
+            m.unit = ""
+            m.unit = s
+        elif mode == "repeated":
+            m = q.Measurement([float(v), float(v) + 0.25, float(v) - 0.125], unit=s)
+        elif mode in ("array", "array-assign", "array-reassign"):
+            if mode == "array":
+                arr = q.MeasurementArray([v, v + 1, v + 2], e, unit=s)
+            else:
+                arr = q.MeasurementArray([v, v + 1, v + 2], e,
+                                         **({"unit": other} if mode == "array-reassign" else {}))
+                arr.unit = s
+            m = arr[opt.get("index", 1)]
+            self.arrays[id(m)] = arr
+            self.keep.append(arr)
+        else:
+            raise ValueError(mode)
+        self.keep.append(m)
+        return m
+
+    def request(self, obj, kind, arg):
+        """one request that the library must reject; the exception is caught (a fault)"""
+        q = self.q
+        try:
+            with warnings.catch_warnings():
+                warnings.simplefilter("ignore")
+                if kind == "unit":
+                    obj.unit = arg
+                elif kind == "unit-type":
+                    obj.unit = BAD_UNIT_OBJECTS[arg]
+                elif kind == "array-unit":
+                    (self.arrays.get(id(obj)) if id(obj) in self.arrays else obj).unit = arg
+                elif kind == "define":
+                    q.define_unit(arg[0], arg[1])
+                elif kind == "ctor":
+                    q.Measurement(1.0, 0.1, unit=arg)
+                elif kind == "array-ctor":
+                    q.MeasurementArray([1.0, 2.0], 0.1, unit=arg)
+                elif kind == "op-type":
+                    {"add-str": lambda: obj + "abc", "pow-str": lambda: obj ** "x",
+                     "rsub-none": lambda: None - obj, "mul-dict": lambda: obj * {"a": 1}}[arg]()
+                else:
+                    raise ValueError("unknown fault kind " + kind)
+            self.faults.append([kind, arg, "accepted"])
+        except Exception as e:  # noqa: BLE001  the rejection the caller catches
+            self.faults.append([kind, arg, type(e).__name__])
+
+    def build(self, tree):
+        q = self.q
+        tag = tree[0]
+        if tag == "leaf":
+            return self.leaf(tree)
+        if tag == "const":
+            return num_obj(F(2), tree[1] if len(tree) > 1 else None)
+        if tag == "fault":
+            obj = self.build(tree[1])
+            self.request(obj, tree[2], tree[3])
+            return obj
+        if tag == "recalc":
+            obj = self.build(tree[1])
+            ops = self.kids.get(id(obj), [])
+            for x in tree[2]:
+                ci, kind = x[0], x[1]
+                if ci < len(ops) and hasattr(ops[ci], "unit"):
+                    if kind == "assign":
+                        ops[ci].unit = x[3]          # a valid assignment: the result follows
+                    else:
+                        self.request(ops[ci], kind, x[2])
+            obj.recalculate()
+            return obj
+        if tag == "powc":
+            a = self.build(tree[1])
+            k = F(tree[2], tree[3])
+            r = a ** num_obj(k, tree[4] if len(tree) > 4 else None)
+            self.kids[id(r)] = [a]
+            self.keep.append(r)
+            return r
+        op, args = tree[1], [self.build(t) for t in tree[2]]
+        if op == "neg":
+            r = -args[0]
+        elif op == "sqrt":
+            r = q.sqrt(args[0])
+        elif op == "add":
+            r = args[0] + args[1]
+        elif op == "sub":
+            r = args[0] - args[1]
+        elif op == "mul":
+            r = args[0] * args[1]
+        elif op == "div":
+            r = args[0] / args[1]
+        elif op == "sin":
+            r = q.sin(args[0])
+        else:
+            raise ValueError(op)
+        self.kids[id(r)] = args
+        self.keep.append(r)
+        return r
+
+
+def build_tree(q, tree, leaves):
+    """build the formula with real quantities; tree = driver JSON; leaves collects leaf strings"""
+    b = Builder(q)
+    r = b.build(tree)
+    leaves.extend(b.leaves)
+    return r
 
 
 def strip_tree(tree):
-    """driver form of a tree (leaf strings removed)"""
+    """driver form of a tree (leaf strings, argument types and fault wrappers removed)"""
+    tree = unwrap(tree)
     if tree[0] == "leaf":
         return ["leaf", tree[1]]
     if tree[0] == "const":
@@ -163,11 +356,22 @@ def strip_tree(tree):
 def pretty_tree(tree):
     tag = tree[0]
     if tag == "leaf":
-        return "[{}]".format(tree[2] if len(tree) > 2 else unit_string(units_from_json(tree[1])))
+        opt = tree[3] if len(tree) > 3 else {}
+        extra = "".join(":" + str(opt[k]) for k in ("mode", "vt", "et") if opt.get(k))
+        return "[{}{}]".format(tree[2] if len(tree) > 2 else unit_string(units_from_json(tree[1])),
+                               extra)
     if tag == "const":
-        return "2"
+        return "2" if len(tree) < 2 or not tree[1] else "{}(2)".format(tree[1])
+    if tag == "fault":
+        return "{}<rejected {} {!r}>".format(pretty_tree(tree[1]), tree[2], tree[3])
+    if tag == "recalc":
+        return "recalculate({}; before it, operand {})".format(pretty_tree(tree[1]), ", ".join(
+            ("#{0}.unit = {3!r}" if x[1] == "assign" else "#{} <rejected {} {!r}>").format(*x)
+            for x in tree[2]) or "nothing")
     if tag == "powc":
-        return "({})**({})".format(pretty_tree(tree[1]), F(tree[2], tree[3]))
+        k = F(tree[2], tree[3])
+        return "({})**({})".format(pretty_tree(tree[1]), k if len(tree) < 5 or not tree[4]
+                                   else "{}({})".format(tree[4], k))
     op, a = tree[1], tree[2]
     if len(a) == 1:
         return "{}({})".format(op, pretty_tree(a[0]))
@@ -184,13 +388,15 @@ def observe_tree(q, tree, defs=(), clear=True):
     out = {}
     with warnings.catch_warnings(record=True) as w:
         warnings.simplefilter("always")
+        b = Builder(q)
         try:
-            r = build_tree(q, tree, [])
+            r = b.build(tree)
             s = r.unit
             out["unit"] = s
         except Exception as e:  # noqa: BLE001
             out["exception"] = "{}: {}".format(type(e).__name__, e)
     out["warn"] = any(issubclass(x.category, UserWarning) for x in w)
+    out["faults"] = b.faults
     if "unit" in out:
         out["parsed"] = ("ok", ()) if out["unit"] == "" else impl_parse(out["unit"])
     return out
@@ -216,7 +422,9 @@ def expand(u, defs):
 
 def dim_tree(tree, defs):
     """dimensional analysis on exponent functions: -> ('ok', dict) | ('mismatch',) | ('nodim',)
-    'nodim' = a non-constant operand without unit (outside the domain of C08/C18)"""
+    'nodim' = a non-constant operand without unit (outside the domain of C08/C18).
+    Fault / recalculation wrappers are transparent: a rejected request changes nothing."""
+    tree = unwrap(tree)
     tag = tree[0]
     if tag == "leaf":
         d = {k: v for k, v in expand(units_from_json(tree[1]), defs).items() if v != 0}
@@ -296,6 +504,7 @@ def _simulate(tree, defs, exact):
         return ratio
 
     def go(t):
+        t = unwrap(t)
         tag = t[0]
         if tag == "leaf":
             u = collections.OrderedDict((k, F(n, d) if exact else n) for k, n, d in t[1])
@@ -306,7 +515,7 @@ def _simulate(tree, defs, exact):
         if tag == "powc":
             a, _ = go(t[1])
             k = F(t[2], t[3])
-            p = k if exact else (k.numerator if k.denominator == 1 else k.numerator / k.denominator)
+            p = k if exact else num_obj(k, t[4] if len(t) > 4 else None)
             u = collections.OrderedDict((s, e * p) for s, e in a.items())
             trace.append((dict(u), False))
             return u, False
@@ -487,6 +696,7 @@ def differently_ordered_sum(tree, defs=None):
 
     def order(t):
         # insertion order of the exact result, mirroring dict semantics
+        t = unwrap(t)
         tag = t[0]
         if tag == "leaf":
             return [k for k, v in expand(units_from_json(t[1]), defs).items() if v != 0]
@@ -514,8 +724,18 @@ def differently_ordered_sum(tree, defs=None):
 
 def tree_ops(tree, acc=None):
     acc = acc if acc is not None else collections.Counter()
-    if tree[0] == "powc":
+    if tree[0] == "fault":
+        acc["fault:" + tree[2]] += 1
+        tree_ops(tree[1], acc)
+    elif tree[0] == "recalc":
+        acc["recalculate"] += 1
+        for x in tree[2]:
+            acc["recalculate:valid-reassignment" if x[1] == "assign" else "fault:late-" + x[1]] += 1
+        tree_ops(tree[1], acc)
+    elif tree[0] == "powc":
         acc["pow"] += 1
+        if len(tree) > 4 and tree[4]:
+            acc["powtype:" + tree[4]] += 1
         tree_ops(tree[1], acc)
     elif tree[0] == "node":
         acc[tree[1]] += 1
@@ -523,12 +743,24 @@ def tree_ops(tree, acc=None):
             tree_ops(t, acc)
     else:
         acc[tree[0]] += 1
+        if tree[0] == "const" and len(tree) > 1 and tree[1]:
+            acc["consttype:" + tree[1]] += 1
+        if tree[0] == "leaf" and len(tree) > 3:
+            for k in ("mode", "vt", "et"):
+                if tree[3].get(k):
+                    acc["leaf{}:{}".format(k, tree[3][k])] += 1
     return acc
 
 
 def tree_syms(tree, acc=None):
     acc = acc if acc is not None else []
-    if tree[0] == "leaf":
+    if tree[0] in WRAPPERS:
+        tree_syms(tree[1], acc)
+        if tree[0] == "recalc":
+            for x in tree[2]:
+                if x[1] == "assign":
+                    tree_syms(["leaf", x[2]], acc)
+    elif tree[0] == "leaf":
         for k, _, _ in tree[1]:
             if k not in acc:
                 acc.append(k)
@@ -547,7 +779,7 @@ def case_hash(c):
 # ----------------------------------------------------------------------------- histories (C08/C18)
 def subtrees(tree):
     out = [tree]
-    if tree[0] == "powc":
+    if tree[0] in WRAPPERS or tree[0] == "powc":
         out += subtrees(tree[1])
     elif tree[0] == "node":
         for t in tree[2]:
@@ -573,6 +805,28 @@ def unprintable_power(d, defs_h):
     return False
 
 
+def fault_not_judged(o):
+    """True when a request that was meant to be rejected was ACCEPTED and the library's own parser
+    gives its string a meaning (or the request carries no unit string at all): whether that string
+    is a unit is C12's question; the quantity then legitimately carries another unit and the
+    evaluation is not judged (counted).  An accepted request whose string the parser still
+    rejects is judged as usual: the request was swallowed, not accepted."""
+    for kind, arg, outcome in o.get("faults", ()):
+        if outcome != "accepted":
+            continue
+        text = arg[1] if kind == "define" else arg
+        if kind in ("unit", "array-unit", "define", "ctor", "array-ctor") and isinstance(text, str) \
+                and text != "" and impl_parse(text)[0] == "reject" and (
+                    kind != "define" or _ascii_name_ok(arg[0])):
+            continue
+        return True
+    return bool(o.get("tainted"))
+
+
+def _ascii_name_ok(name):
+    return bool(name) and all(c.isascii() and (c.isalnum() or c == "_") for c in name)
+
+
 def judge_eval(pid, tree, defs_h, o, m=None):
     """judge one evaluated tree.  defs_h: harness definitions {name: [(sym, F)]};
     o: observe_tree output; m: model reply or None.  Returns list of failures."""
@@ -581,8 +835,17 @@ def judge_eval(pid, tree, defs_h, o, m=None):
     p = pid.lower()
     if want[0] == "ok" and unprintable_power(want[1], defs_h):
         return []   # the exact power of a named unit has a denominator > 10: not printable
-    root = tree[1] if tree[0] == "node" else tree[0]
+    if fault_not_judged(o):
+        return []   # a request meant to be rejected was accepted with a meaning (C12's business)
+    core = unwrap(tree)
+    root = core[1] if core[0] == "node" else core[0]
+    if has_fault(tree):
+        root += "+rejected-request"
+    elif has_recalc(tree):
+        root += "+recalculated"
     base = {"input": pretty_tree(tree), "tree": tree}
+    if o.get("faults"):
+        base["requests_rejected_first"] = o["faults"]
 
     def expanded_impl():
         st, val = o["parsed"]
@@ -602,7 +865,7 @@ def judge_eval(pid, tree, defs_h, o, m=None):
                                    "library's own parser".format(o["unit"]),
                               impl=o["unit"], expected=str(want), oracle="independent",
                               clause="result unit is a unit"))
-        elif want[0] == "ok" and tree[0] == "node" and zero_syms(o["unit"]):
+        elif want[0] == "ok" and core[0] == "node" and zero_syms(o["unit"]):
             fails.append(dict(base, signature="{}:cancelled-unit-shown:{}".format(p, root),
                               what="a unit that cancels is still listed in the result's unit "
                                    "({!r})".format(o["unit"]), impl=o["unit"],
@@ -622,7 +885,10 @@ def judge_eval(pid, tree, defs_h, o, m=None):
                         "mismatch warning on a sum/difference of dimensionally equal operands")
                 else:
                     sig, what = "{}:dim:{}".format(p, root), (
-                        "unit of the result differs from dimensional analysis")
+                        "unit of the result differs from dimensional analysis" + (
+                            " of the units the operands carry (a request that raised and was "
+                            "caught changed a quantity or the definitions)" if has_fault(tree)
+                            else ""))
                 fails.append(dict(base, signature=sig, what=what,
                                   impl={"unit": o["unit"], "expanded": show(got or ()),
                                         "warning": o["warn"]},
@@ -670,37 +936,56 @@ def judge_eval(pid, tree, defs_h, o, m=None):
 
 
 def run_history(q, hist):
-    """execute a define/clear/eval history on the real library.
-    Returns (list of (tree, defs_h snapshot, defs_model snapshot, observation))"""
+    """execute a define / define-bad / clear / eval history on the real library.
+    Steps: ["define", name, string, units_json]   a definition that must be accepted
+           ["define-bad", name, string]          a definition that must be REJECTED (caught)
+           ["clear"]                             clear_unit_definitions()
+           ["eval", tree]                        build the formula, read the unit of the result
+    Returns a list of (tree, defs_h snapshot, request history so far, observation, step index);
+    defs_h holds the harness's own record of the accepted definitions only."""
     reset(q)
     defs_h = collections.OrderedDict()
-    defs_m = []
+    reqs = []
     out = []
-    for st in hist:
+    tainted = False
+    log = []
+    for i, st in enumerate(hist):
         if st[0] == "define":
             _, name, ustr, uj = st
             q.define_unit(name, ustr)
             defs_h[name] = units_from_json(uj)
-            defs_m.append([name, uj])
+            reqs.append(["define", name, ustr])
+        elif st[0] == "define-bad":
+            _, name, ustr = st[:3]
+            b = Builder(q)
+            b.request(None, "define", [name, ustr])
+            log += b.faults
+            if fault_not_judged({"faults": b.faults}):
+                tainted = True       # accepted with a meaning: the rest is not judged
+            reqs.append(["define", name, ustr])
         elif st[0] == "clear":
             q.clear_unit_definitions()
             defs_h = collections.OrderedDict()
-            defs_m = []
+            reqs.append(["clear"])
+            tainted = False
         else:
             o = observe_tree(q, st[1], clear=False)
-            out.append((st[1], dict(defs_h), list(defs_m), o))
+            o["faults"] = list(log) + o.get("faults", [])
+            if tainted:
+                o["tainted"] = True
+            out.append((st[1], dict(defs_h), list(reqs), o, i))
     reset(q)
     return out
 
 
-def shrink_tree(q, pid, hist_defs, tree, defs_h):
-    """smallest subtree that still fails the independent oracle under the same definitions"""
+def shrink_tree(q, pid, prefix, tree, defs_h):
+    """smallest subtree that still fails the independent oracle after the same define / clear
+    requests (prefix = the steps of the history before the evaluation that touch the session)"""
     best = None
     for t in sorted(subtrees(tree), key=tree_size):
-        if t[0] != "node" and t[0] != "powc":
-            continue
-        h = [["define", n, s, uj] for n, s, uj in hist_defs] + [["eval", t]]
-        (_, _, _, o), = run_history(q, h)
+        if unwrap(t)[0] not in ("node", "powc"):
+            continue        # only calculated quantities are judged
+        (_, _, _, o, _) = run_history(q, list(prefix) + [["eval", t]])[-1]
         fs = judge_eval(pid, t, defs_h, o)
         if fs:
             best = (t, fs[0])
@@ -708,42 +993,78 @@ def shrink_tree(q, pid, hist_defs, tree, defs_h):
     return best
 
 
+def session_fault(tree):
+    """does evaluating the formula send a (rejected) request to the session, not only to its own
+    quantities?  Such an evaluation is kept when a history is shortened."""
+    return any((t[0] == "fault" and t[2] == "define") or
+               (t[0] == "recalc" and any(x[1] == "define" for x in t[2])) for t in subtrees(tree))
+
+
+def describe_prefix(prefix):
+    out = []
+    for st in prefix:
+        if st[0] == "eval":
+            out.append("after evaluating " + pretty_tree(st[1]))
+        elif st[0] == "define":
+            out.append("{}={}".format(st[1], st[2]))
+        elif st[0] == "define-bad":
+            out.append("rejected define_unit({!r}, {!r})".format(st[1], st[2]))
+        else:
+            out.append("clear")
+    return ", ".join(out)
+
+
 def run_cases(ctx, pid, cases, ref=False, use_model=True):
     """cases: list of histories.  Returns the dict check.py expects (without nontrivial rule)."""
     import qexpy as q
-    evals = []      # (case index, tree, defs_h, defs_m, obs)
+    evals = []      # (case index, tree, defs_h, request history, obs, step index)
     for ci, h in enumerate(cases):
-        for (t, dh, dm, o) in run_history(q, h):
-            evals.append((ci, t, dh, dm, o))
+        for (t, dh, rq, o, si) in run_history(q, h):
+            evals.append((ci, t, dh, rq, o, si))
     replies = [None] * len(evals)
     if use_model:
-        lines = [{"cmd": "utree", "defs": dm, "tree": strip_tree(t),
+        lines = [{"cmd": "utree", "reqs": rq, "tree": strip_tree(t),
                   "syms": sorted(set(tree_syms(t)) | {k for v in dh.values() for k, _ in v})}
-                 for (_, t, dh, dm, _) in evals]
+                 for (_, t, dh, rq, _, _) in evals]
         replies = ctx.model(lines, ref=ref) if lines else []
     failures, samples = [], []
     dist = collections.Counter()
-    for (ci, t, dh, dm, o), m in zip(evals, replies):
+    for h in cases:
+        for st in h:
+            if st[0] == "define-bad":
+                dist["history:rejected-define:" + (st[3] if len(st) > 3 else "other")] += 1
+    for (ci, t, dh, rq, o, si), m in zip(evals, replies):
         for k, v in tree_ops(t).items():
-            dist["op:" + k] += v
+            dist[(k if k.split(":")[0] in ("fault", "powtype", "consttype", "leafmode", "leafvt",
+                                            "leafet", "recalculate") else "op:" + k)] += v
         dist["defs:{}".format(len(dh))] += 1
         want = dim_tree(t, dh)
         dist["oracle:" + want[0]] += 1
+        for kind, arg, outcome in o.get("faults", ()):
+            dist["request-outcome:{}:{}".format(kind, outcome)] += 1
+        if o.get("faults"):
+            dist["evaluations-after-a-rejected-request"] += 1
+        if fault_not_judged(o):
+            dist["not-judged:fault-accepted"] += 1
         fs = judge_eval(pid, t, dh, o, m)
-        for f in fs:
+        for k, f in enumerate(fs):
             f["history"] = cases[ci]
             if f.get("oracle") == "independent":
-                hd = [(st[1], st[2], st[3]) for st in cases[ci] if st[0] == "define"]
-                if not any(st[0] == "clear" for st in cases[ci]):
-                    sh = shrink_tree(q, pid, hd, t, dh)
-                    if sh:
-                        f["shrunk"] = {"input": sh[1]["input"], "impl": sh[1].get("impl"),
-                                       "expected": sh[1].get("expected"), "tree": sh[0]}
-                        f["input"] = sh[1]["input"] + (
-                            "  with " + ", ".join("{}={}".format(n, s) for n, s, _ in hd) if hd else "")
+                prefix = [st for st in cases[ci][:si] if st[0] != "eval" or session_fault(st[1])]
+                sh = shrink_tree(q, pid, prefix, t, dh)
+                if sh:
+                    # report the smallest calculated quantity that still fails, with its own
+                    # observation / expectation; the formula it was found in is kept
+                    g = dict(sh[1])
+                    g["history"] = prefix + [["eval", sh[0]]]
+                    g["found_in"] = {"input": f["input"], "signature": f["signature"],
+                                     "history": cases[ci]}
+                    f = fs[k] = g
+                if prefix:
+                    f["input"] += "  with " + describe_prefix(prefix)
         failures += fs
         if len(samples) < 5 and "unit" in o:
-            samples.append({"formula": pretty_tree(t), "defs": [d[0] for d in dm],
+            samples.append({"formula": pretty_tree(t), "defs": list(dh),
                             "impl_unit": o["unit"], "warning": o["warn"],
                             "model": show(sem_json(m["units"])) if m and m.get("ok") else None})
     return {"evaluations": len(evals), "failures": failures, "samples": samples,
